@@ -4,6 +4,7 @@ from __future__ import annotations
 
 import collections
 import itertools
+import math
 import os
 
 import numpy as np
@@ -67,6 +68,8 @@ def cases(tier, seed):
             out.append({"part": "B", "frame": fr, "what": "project_corner", "corner": c1})
         for i in range(4):
             out.append({"part": "B", "frame": fr, "what": "add_side_edge", "corner": i})
+        for nfaces in (2, 3, 4, 5):
+            out.append({"part": "B", "frame": fr, "what": "from_series", "faces": nfaces})
         # part C: histories of addressing calls (declaration model: union of what each call addresses)
         pair_frames = frames if tier == "thorough" else frames[:1]
         if fr in pair_frames:
@@ -343,6 +346,42 @@ def run_part_b(case):
         got = [sorted(c_of[v] for v in e["v"]) for e in d["edges"]]
         if got != [[i, i + 4]] or d["edges"][0]["kind"] != "arc" or np.linalg.norm(np.array(d["edges"][0]["point"]) - mid) > 1e-6:
             bad("add_side_edge-wrong-edge", f"written {got}, expected {[[i, i + 4]]}")
+    elif what == "from_series":
+        # Loft.from_series: bottom and top are the first and the last face, the side edge at corner i passes through
+        # point i of every face in between (arc for one, spline for more), in the order of the list
+        n = case["faces"]
+        inner = []
+        for k in range(1, n - 1):
+            w = k / (n - 1)
+            q = [pts[i] * (1 - w) + pts[i + 4] * w + (0.15 + 0.05 * i) * math.sin(math.pi * w) * jitter_vec(i + 7 + 3 * k) for i in range(4)]
+            inner.append(np.array(q))
+        series = [cb.Face(pts[:4])] + [cb.Face(q) for q in inner] + [cb.Face(pts[4:])]
+        loft = cb.Loft.from_series(series)
+        for a in range(3):
+            loft.chop(a, count=1)
+        d = write_parse(loft)
+        c_of = corner_of_vertex(d, pts)
+        expect_clean(d, allow=("edges",))
+        got = {}
+        for e in d["edges"]:
+            cs = [c_of[v] for v in e["v"]]
+            got[tuple(sorted(cs))] = (e, cs[0] > cs[1])
+        want_keys = [(i, i + 4) for i in range(4)] if n > 2 else []
+        if sorted(got) != want_keys:
+            bad("from_series-wrong-edges", f"{n} faces: edges between corners {sorted(got)}, expected {want_keys}")
+        else:
+            for i in range(4 if n > 2 else 0):
+                e, rev = got[(i, i + 4)]
+                if n == 3:
+                    if e["kind"] != "arc" or np.linalg.norm(np.array(e["point"]) - inner[0][i]) > 1e-6:
+                        bad("from_series-edge-misses-its-corner", f"3 faces: side edge {i}-{i + 4} is {e['kind']} through {e.get('point')}, the middle face has its point {i} at {inner[0][i].round(6).tolist()}")
+                else:
+                    want = [q[i] for q in inner]
+                    if rev:
+                        want = want[::-1]
+                    gp = np.array(e.get("points", []))
+                    if e["kind"] != "spline" or gp.shape != np.array(want).shape or np.max(np.linalg.norm(gp - np.array(want), axis=1)) > 1e-6:
+                        bad("from_series-edge-misses-its-corner", f"{n} faces: side edge {i}-{i + 4}: {e['kind']} {gp.round(4).tolist()}, points {i} of the faces in between {np.round(want, 4).tolist()}")
     elif what == "get_face":
         side = case["side"]
         face = loft.get_face(side)
